@@ -527,6 +527,14 @@ def m_print(interp, st, args, kwargs, node=None):
     yield st, VNone
 
 
+def _install_noop():
+    from .engine import _noop_init
+
+    def h(interp, st, args, kwargs, node=None):
+        yield st, VNone
+    BUILTIN_MODELS[_noop_init] = h
+
+
 @model(id)
 def m_id(interp, st, args, kwargs, node=None):
     v = args[0]
@@ -1022,6 +1030,10 @@ def call_method(interp, st, recv, name, args, kwargs, node=None):
     if isinstance(recv, VRef) and isinstance(st.heap[recv.addr], BytesIOCell):
         yield from bytesio_method(interp, st, recv, st.heap[recv.addr], name, args, kwargs, node)
         return
+    if isinstance(recv, VRef) and isinstance(st.heap[recv.addr], HCell) and st.heap[recv.addr].kind == 'hash':
+        from .stdmodels import hash_method
+        yield from hash_method(interp, st, recv, st.heap[recv.addr], name, args, kwargs, node)
+        return
     if isinstance(recv, VSegs):
         recv = to_vbytes(recv)
     args = [to_vbytes(a) if isinstance(a, VSegs) else a for a in args]
@@ -1088,6 +1100,8 @@ def int_method(interp, st, recv, name, args, kwargs, node):
 
         def mkres(term):
             # keep the (concrete) length with the value: a one-segment byte string
+            if isinstance(ln, int) and ln == 1:
+                return VSegs([('sym', z3.StrFromCode(term.arg(0)), 1)])      # same term as struct 'B'
             return VSegs([('sym', term, ln)]) if isinstance(ln, int) else VBytes(term)
         if not sg:
             ok = z3.And(iterm(t) >= 0, iterm(t) < p)
@@ -1276,6 +1290,9 @@ def str_method(interp, st, recv, name, args, kwargs, node):
         enc = enc.lower().replace('_', '-')
         if errors != 'strict':
             raise Unsupported("decode with error handler", node)
+        if z3.is_app(t) and t.decl().name() == 'hexlify' and enc in ('utf-8', 'utf8', 'ascii', 'latin-1', 'latin1'):
+            yield st, VStr(t)        # hex digits are ASCII: decoding is the identity
+            return
         if enc in ('utf-8', 'utf8'):
             bm.USED_UF.add('utf8')
             ok = bm._UTF8OK(t)
